@@ -33,7 +33,13 @@ func RenderVer(v model.Ver, hasEpoch bool) string {
 	return s
 }
 
-var epochPool = []uint64{0, 1, 2, 10, 1<<31 - 1, 1<<63 - 1}
+// Epochs of generated version TEXT stay within what every reader of the format accepts (dpkg stops at INT_MAX);
+// larger ones are "oversized" to dpkg and fine to this library - see BigEpochs.
+var epochPool = []uint64{0, 1, 2, 10, 99, 1<<31 - 1}
+
+// BigEpochs: epochs beyond dpkg's INT_MAX that still fit the library's field, for struct-level comparisons (C01/C02)
+// and for the "accepted faithfully or refused" class of C03.
+var BigEpochs = []uint64{1 << 31, 1<<32 + 5, 1<<63 - 1}
 
 func digitRun(r *core.Rand) string {
 	switch r.Intn(10) {
